@@ -22,6 +22,14 @@ fn check(id: &str, tier: Tier) -> i32 {
             let n = ctx.runs(200_000, 20_000_000);
             run_check(&props::c13::C13, &ctx, &[("histories", n)], |_, _| Vec::new()).exit
         }
+        "C14" => {
+            let n = ctx.runs(4_000, 200_000);
+            run_check(&props::c14::C14, &ctx, &[("programs", n)], |_, _| Vec::new()).exit
+        }
+        "C11" => {
+            let n = ctx.runs(1_500, 40_000);
+            run_check(&props::c11::C11, &ctx, &[("histories", n)], |_, _| Vec::new()).exit
+        }
         "C07" => {
             let n = ctx.runs(4_000, 250_000);
             run_check(&props::c07::C07, &ctx, &[("programs", n)], |_, _| Vec::new()).exit
@@ -57,6 +65,8 @@ fn replay(path: &Path) -> i32 {
         "C13" => replay_main(&props::c13::C13, path),
         "C02" => replay_main(&props::c02::C02, path),
         "C07" => replay_main(&props::c07::C07, path),
+        "C11" => replay_main(&props::c11::C11, path),
+        "C14" => replay_main(&props::c14::C14, path),
         _ => {
             eprintln!("HARNESS-ERROR: replay file names unknown property {:?}", prop);
             2
